@@ -1361,10 +1361,22 @@ class Interp:
             # generator): carried as the sequence of its items
             self.elem_facts = saved_elem_facts
             return self.fold_loop(spec, target, body, frame, carried, idx, seq_only=frozenset(seq_only) | {e.args[0]})
+        # a step that raises on some path (and has done nothing else on it) is allowed for an accumulator that
+        # is only appended to: the loop is then the comprehension `[g(x) for x in xs]` whose element expression
+        # raises under the same condition - the raising alternative becomes part of the collection's identity,
+        # exactly as for a comprehension (see lib.seq_of / collect_loop)
+        raising = [a for a in alts if a["exit"][0] == "raise" and not a["trace"]]
+        alts = [a for a in alts if not (a["exit"][0] == "raise" and not a["trace"])]
+        refusal = None
         for a in alts:
             if a["exit"][0] != "next" or len(a["trace"]) != 1 or a["trace"][0][0] != "foldout":
                 what = a["exit"][0] if a["exit"][0] != "next" else "effects " + ",".join(str(x[0]) for x in a["trace"][:-1])
                 raise Unsupported(f"fold step must be effect-free and end normally on every path (carried {carried}: {what} {a['exit'][1] if len(a['exit']) > 1 else ''})"[:300])
+        if raising:
+            a = raising[0]
+            refusal = Unsupported(f"fold step must be effect-free and end normally on every path (carried {carried}: raise {a['exit'][1] if len(a['exit']) > 1 else ''})"[:300])
+            if not alts or not (len(carried) == 1 and kinds[0] in ("seq", "list")) or any(_mentions(d, accs[0]) for r in raising for d in r["decisions"]):
+                raise refusal
         # an accumulator that is only appended to is a collection (lemma foldl_append in lemmas/Rules.lean:
         # foldl (fun acc x => acc ++ g x) init xs = init ++ xs.flatMap g): the same abstraction as the
         # comprehension that builds the list in one expression
@@ -1379,10 +1391,15 @@ class Interp:
                     break
                 rests.append(rest)
             if rests is not None:
+                def _item(r):
+                    if z3.is_app(r) and r.decl().kind() == z3.Z3_OP_SEQ_UNIT:
+                        return ("yield", r.arg(0))  # append(x): the same item a comprehension's element gives
+                    return ("yieldfrom", r)
+
                 alts2 = [
-                    {"pc": list(a["pc"]), "decisions": list(a["decisions"]), "trace": ([("yieldfrom", r)] if r is not None else []), "exit": ("next",)}
+                    {"pc": list(a["pc"]), "decisions": list(a["decisions"]), "trace": ([_item(r) if raising else ("yieldfrom", r)] if r is not None else []), "exit": ("next",)}
                     for a, r in zip(alts, [None if (z3.is_app(r) and r.decl().kind() == z3.Z3_OP_SEQ_EMPTY) else r for r in rests])
-                ]
+                ] + [{"pc": list(a["pc"]), "decisions": list(a["decisions"]), "trace": [], "exit": a["exit"]} for a in raising]
                 collected = lib.collect_loop(self, ("loop", spec, idx, alts2))
                 val = z3.Concat(inits[0], collected)
                 self.assumed.append("rule:fold(append-only accumulator = collected sequence)")
@@ -1394,6 +1411,8 @@ class Interp:
                 for nm in (_assigned_names(body) | _target_names(target)) - set(carried):
                     frame.vars[nm] = Poison(nm)
                 return None
+        if refusal is not None:
+            raise refusal
         # one function of (carried, element): the alternatives are merged by their branch conditions
         alts.sort(key=lambda a: "&".join(sorted(S.canon_text(d) for d in a["decisions"])))
         outs = list(alts[-1]["trace"][0][1])
